@@ -389,7 +389,7 @@ def cross_component_cases():
 
 
 def parts(tier):
-    k = 1 if tier == "quick" else 30
+    k = 1 if tier == "quick" else 15
     return [
         Part("regressions", evaluate, enumerate=regression_cases, exhaustive=True),
         Part("known_cross_component_reference", eval_cross_component, enumerate=cross_component_cases, exhaustive=True,
